@@ -84,7 +84,9 @@ pub struct Custom {
 
 pub fn registry(prop: &str) -> Option<Custom> {
     match prop {
+        "C06" => Some(crate::props::c06::check()),
         "C14" => Some(crate::props::c14::check()),
+        "C15" => Some(crate::props::c15::check_entry()),
         _ => None,
     }
 }
@@ -128,4 +130,81 @@ pub fn par<F: Fn(usize, usize) -> COut + Sync>(n: usize, workers: usize, f: F) -
         total.distinct_nontrivial = total.distinct.len() as u64;
     }
     total
+}
+
+/// run a batch of simulated scenarios from inside a custom check; violations are minimised and
+/// returned as scenario replays
+pub fn sim_jobs(
+    workers: usize,
+    jobs: Vec<crate::runner::Job>,
+    oracle: &crate::runner::Oracle,
+    admissible: &(dyn Fn(&crate::scenario::Scenario) -> bool + Sync),
+    sig_of: &dyn Fn(&crate::analysis::Violation, &crate::scenario::Scenario, &crate::world::RunRecord) -> String,
+) -> COut {
+    use crate::analysis::Analysis;
+    let ctx = crate::runner::Ctx::new(workers);
+    let hang: std::sync::Arc<crate::runner::HangHandler> = std::sync::Arc::new(|text: &str| {
+        let path = format!("/verif/replays/hang-{}.replay", std::process::id());
+        let _ = std::fs::create_dir_all("/verif/replays");
+        let _ = std::fs::write(&path, text);
+        eprintln!("HARNESS-ERROR: a simulated run hung (wall-clock watchdog); scenario written to {} - this is C03 territory", path);
+        std::process::exit(2);
+    });
+    let mut out = COut::default();
+    let none = |_: &Analysis| -> Vec<crate::analysis::Violation> { vec![] };
+    let mut fired = crate::world::FaultCounts::default();
+    let mut sim_us = 0u64;
+    for job in &jobs {
+        let (st, found) = crate::runner::run_job(&ctx, job, oracle, &none, &|a, o| crate::checks::common_probes(a, o), hang.clone());
+        out.evaluations += st.runs;
+        out.distinct.extend(st.fingerprints.iter().copied());
+        fired.add(&st.counts);
+        sim_us += st.sim_us;
+        out.harness_errors.extend(st.harness_errors.iter().cloned());
+        if let Some(s) = st.longest.as_ref() {
+            if out.samples.len() < 4 {
+                out.samples.push(s.1.clone());
+            }
+        }
+        out.extra.push((format!("sim_job_runs: {}", job.label), J::i(st.runs)));
+        let mut per_clause: std::collections::BTreeMap<String, u32> = Default::default();
+        for f in found {
+            let n = per_clause.entry(f.v.clause.to_string()).or_insert(0);
+            *n += 1;
+            if *n > 2 {
+                continue;
+            }
+            let mut m = crate::minimise::Minimiser { admissible, ctx: &ctx, oracle, target: crate::minimise::Target { prop: f.v.prop, clause: f.v.clause }, budget: 600, used: 0 };
+            let min = m.run(&f.sc);
+            let rec = crate::runner::run_one(&ctx, &min);
+            let a = Analysis::new(&rec);
+            if let Some(v) = oracle(&a).into_iter().find(|v| v.prop == f.v.prop && v.clause == f.v.clause) {
+                out.viol(CViol { clause: v.clause.to_string(), signature: sig_of(&v, &min, &rec), detail: v.detail.clone(), replay: min.to_text() });
+            } else {
+                out.harness_errors.push(format!("minimised scenario does not reproduce {}/{}", f.v.prop, f.v.clause));
+            }
+        }
+    }
+    let mut fc = J::obj();
+    for (k, n) in fired.pairs() {
+        fc.set(k, J::i(n));
+    }
+    out.extra.push(("sim_faults_fired".into(), fc));
+    out.extra.push(("sim_simulated_seconds".into(), J::i(sim_us / 1_000_000)));
+    ctx.cleanup();
+    out
+}
+
+/// replay a scenario text under an oracle (for the in-situ parts of custom checks)
+pub fn sim_replay(
+    text: &str,
+    oracle: &crate::runner::Oracle,
+    sig_of: &dyn Fn(&crate::analysis::Violation, &crate::scenario::Scenario, &crate::world::RunRecord) -> String,
+) -> Result<Vec<CViol>, String> {
+    let sc = crate::scenario::Scenario::from_text(text)?;
+    let ctx = crate::runner::Ctx::new(1);
+    let rec = crate::runner::run_one(&ctx, &sc);
+    let a = crate::analysis::Analysis::new(&rec);
+    let vs = oracle(&a).into_iter().map(|v| CViol { clause: v.clause.to_string(), signature: sig_of(&v, &sc, &rec), detail: v.detail.clone(), replay: text.to_string() }).collect();
+    Ok(vs)
 }
